@@ -24,6 +24,9 @@
    D (a set of names; the constant Dev for the theorems) switches named deviations:
      NullTruncatesArray  macros.rs, json_array_internal!, arm "Next value is `null`" does not pass $rest on:
                          json!([null, 1, 2]) = [null]                         (defect of the shipped code)
+     DocAttrPanics       humphrey-json-derive named_struct.rs / enum_type.rs: a field or variant that carries any
+                         attribute (a `/// doc` comment is one) but no `rename` makes the derive macro panic
+                         ("Unknown attribute"): the program does not compile                (defect of the shipped code)
      IntBeyond2p53       traits.rs: integers become Value::Number(self as f64): |v| > 2^53 is rounded to
                          the nearest f64 (ties to even); from_json casts back with saturation (open by design)
    and, only to show that the theorems are not vacuous (sensitivity configs; none of these is in the code):
@@ -37,7 +40,8 @@
      field type  [base, a, w]        base in Bool|Int|F64|Str|Ref|Unit, a = integer kind / referenced
                                      declaration, w = wrappers outermost first, e.g. <<"Opt","Vec">>
      declaration [name, kind, via, fields]   kind named|tuple|enum, via derive|map,
-                                     fields = <<[id, hasRen, ren, ty]>> (variants for enums)
+                                     fields = <<[id, hasRen, ren, doc, ty]>> (variants for enums); doc = the field
+                                     carries a doc comment (any attribute other than rename)
      token       [k, s, j, g]        k in null|comma|colon|expr|brack|brace ; an `expr` token stands for a
                                      complete Rust expression with source s and value j ; g = group content
      literal     [k, e, tc, ks, items]   k in empty|null|expr|arr|obj, e = leaf index, tc = trailing comma *)
@@ -48,6 +52,7 @@ CONSTANTS Dev,        \* deviations in force for the theorems
           BaseSeq,    \* base types offered to the declaration enumerator (sequence of [base, a])
           WrapSeq,    \* wrapper stacks offered (sequence of sequences)
           RenSeq,     \* rename strings offered (sequence)
+          DocSet,     \* {FALSE} or BOOLEAN: may fields carry doc comments
           Family,     \* "all": every field type / rename combination; "rot": the rotating family (generation)
           MaxFields,
           MaxDepth, MaxItems, MaxNodes, Leaves   \* literal bound: nesting, items per container, nodes, leaf indices
@@ -137,7 +142,7 @@ VEnum(id)      == [t |-> "enum", s |-> id, b |-> <<>>, f |-> "", c |-> <<>>]
 
 Ty(base, a, w) == [base |-> base, a |-> a, w |-> w]
 UnitTy         == Ty("Unit", "", <<>>)
-Field(id, hasRen, ren, ty) == [id |-> id, hasRen |-> hasRen, ren |-> ren, ty |-> ty]
+Field(id, hasRen, ren, doc, ty) == [id |-> id, hasRen |-> hasRen, ren |-> ren, doc |-> doc, ty |-> ty]
 Decl(name, kind, via, fields) == [name |-> name, kind |-> kind, via |-> via, fields |-> fields]
 NoDecl == Decl("", "none", "", <<>>)
 
@@ -367,6 +372,15 @@ ToJD(v, d, P, D) ==
     [] d.kind = "enum"  -> LET r == JsonM(<<TExpr("name", JStr(Key(d.fields[CHOOSE i \in 1..Len(d.fields) : d.fields[i].id = v.s])))>>, D)
                            IN r.j                                                                    \* Self::X => json!("name")
 
+\* Does the program compile?  named_struct.rs / enum_type.rs: `if attrs.is_empty() { ident } else { attrs.find(rename)
+\* .expect("Unknown attribute") }` - under DocAttrPanics an attribute that is not `rename` on an un-renamed field panics
+\* the derive macro.  tuple_struct.rs does not look at attributes; json_map! is applied to a plain struct.
+DeriveCompiles(d, D) ==
+  ~ /\ "DocAttrPanics" \in D
+    /\ d.via = "derive" /\ d.kind \in {"named", "enum"}
+    /\ \E i \in 1..Len(d.fields) : d.fields[i].doc /\ ~d.fields[i].hasRen
+ProgCompiles(P, D) == \A i \in 1..Len(P) : DeriveCompiles(P[i], D)
+
 ROk(v) == [ok |-> TRUE, v |-> v]
 RErr   == [ok |-> FALSE, v |-> VNone]            \* Err(ParseError::TypeError)
 
@@ -414,7 +428,8 @@ DocReadsBackV(v, d, P, D) == FromJD(AsF64(ShapeD(v, d, P), D), d, P) = ROk(v)
 DocParsesToV(v, d, P, D)  == AsF64(ShapeD(v, d, P), D) = ToJD(v, d, P, D)
 
 \* what an observer of the implementation sees for v under deviations D (all TRUE and obs = Shape when D = {})
-Observe(v, d, P, D) == [obs |-> Canon(ToJD(v, d, P, D)),
+Observe(v, d, P, D) == [c   |-> ProgCompiles(P, D),            \* the program compiles
+                        obs |-> Canon(ToJD(v, d, P, D)),
                         rt  |-> RoundTripV(v, d, P, D),       \* T::from_json(&v.to_json()) == Ok(v); also through text
                         pe  |-> DocParsesToV(v, d, P, D),     \* Value::parse(doc text) == v.to_json()
                         fe  |-> DocReadsBackV(v, d, P, D)]    \* from_str::<T>(doc text) == Ok(v)
@@ -466,12 +481,12 @@ AllVals(d, P) ==
 (***************************************************************************)
 RenCat == << "a b", "with \"quotes\"", "back\\slash", "naïve é", "日本", "{", "k:v", "", "a", "[1, null]" >>
 Lib == <<
-  Decl("E", "enum", "derive", <<Field("A", FALSE, "", UnitTy), Field("Bee", TRUE, "b é", UnitTy), Field("C3", FALSE, "", UnitTy)>>),
-  Decl("P", "tuple", "derive", <<Field("0", FALSE, "", Ty("Int", "i8", <<>>)), Field("1", FALSE, "", Ty("Str", "", <<>>))>>),
-  Decl("N", "named", "derive", <<Field("x", FALSE, "", Ty("Int", "u64", <<"Opt">>)),
-                                 Field("y", TRUE, "the \"y\"", Ty("Ref", "E", <<"Vec">>))>>),
-  Decl("M", "named", "map",    <<Field("p", TRUE, "p p", Ty("Ref", "P", <<>>)),
-                                 Field("e", TRUE, "e", Ty("Ref", "E", <<"Opt">>))>>)
+  Decl("E", "enum", "derive", <<Field("A", FALSE, "", FALSE, UnitTy), Field("Bee", TRUE, "b é", TRUE, UnitTy), Field("C3", FALSE, "", FALSE, UnitTy)>>),
+  Decl("P", "tuple", "derive", <<Field("0", FALSE, "", FALSE, Ty("Int", "i8", <<>>)), Field("1", FALSE, "", TRUE, Ty("Str", "", <<>>))>>),
+  Decl("N", "named", "derive", <<Field("x", FALSE, "", TRUE, Ty("Int", "u64", <<"Opt">>)),
+                                 Field("y", TRUE, "the \"y\"", FALSE, Ty("Ref", "E", <<"Vec">>))>>),
+  Decl("M", "named", "map",    <<Field("p", TRUE, "p p", TRUE, Ty("Ref", "P", <<>>)),
+                                 Field("e", TRUE, "e", FALSE, Ty("Ref", "E", <<"Opt">>))>>)
 >>
 Refs(d) == { d.fields[i].ty.a : i \in { h \in 1..Len(d.fields) : d.fields[h].ty.base = "Ref" } }
 LibRefs(names) == names \cup UNION { Refs(Lookup(Lib, nm)) : nm \in names }
@@ -513,7 +528,7 @@ CanAdd(fl) == "AllowDupKeys" \in Dev \/ \A i \in 1..Len(cur.fields) : Key(cur.fi
 DeclAddField ==
   /\ mode = "decl" /\ cur.kind \in {"named", "tuple"} /\ Len(cur.fields) < MaxFields
   /\ LET i == Len(cur.fields) + 1 IN
-     \E ti \in 1..NFT : \E hr \in BOOLEAN : \E rn \in 1..Len(RenSeq) :
+     \E ti \in 1..NFT : \E hr \in BOOLEAN : \E rn \in 1..Len(RenSeq) : \E dc \in DocSet :
        /\ cur.kind = "tuple" => ~hr                   \* no renames on tuple fields
        /\ cur.via = "map" => hr                       \* json_map! always names the key
        /\ ~hr => rn = 1
@@ -521,10 +536,11 @@ DeclAddField ==
             /\ i > 1 => ti = ((first + i - 2) % NFT) + 1
             /\ (cur.kind = "named" /\ cur.via = "derive") => (hr <=> ((ti + i) % 3 # 0))
             /\ hr => rn = ((ti + i) % Len(RenSeq)) + 1
+            /\ dc <=> ((ti + 2 * i) % 4 = 0)
        /\ LET id == IF cur.kind = "tuple" THEN ToString(i - 1) ELSE FieldIds[i]
               \* rotating family: every third json_map! key is the identifier itself
               ren == IF cur.via = "map" /\ Family = "rot" /\ (ti + i) % 3 = 0 THEN id ELSE RenSeq[rn]
-              fl == Field(id, hr, IF hr THEN ren ELSE "", FT(ti)) IN
+              fl == Field(id, hr, IF hr THEN ren ELSE "", dc, FT(ti)) IN
           /\ CanAdd(fl)
           /\ cur' = [cur EXCEPT !.fields = Append(@, fl)]
           /\ first' = IF i = 1 THEN ti ELSE first
@@ -535,12 +551,13 @@ DeclAddField ==
 DeclAddVariant ==
   /\ mode = "decl" /\ cur.kind = "enum" /\ Len(cur.fields) < MaxFields
   /\ LET i == Len(cur.fields) + 1 IN
-     \E hr \in BOOLEAN : \E rn \in 1..Len(RenSeq) :
+     \E hr \in BOOLEAN : \E rn \in 1..Len(RenSeq) : \E dc \in DocSet :
        /\ ~hr => rn = 1
+       /\ Family = "rot" => (dc <=> ((first + i) % 3 = 0))
        /\ (Family = "rot" /\ i > 1) =>
             /\ hr <=> (IF first = 0 THEN i % 2 = 0 ELSE i % 2 = 1)
             /\ hr => rn = ((first + i - 2) % Len(RenSeq)) + 1
-       /\ LET fl == Field(VarIds[i], hr, IF hr THEN RenSeq[rn] ELSE "", UnitTy) IN
+       /\ LET fl == Field(VarIds[i], hr, IF hr THEN RenSeq[rn] ELSE "", dc, UnitTy) IN
           /\ CanAdd(fl)
           /\ cur' = [cur EXCEPT !.fields = Append(@, fl)]
           /\ first' = IF i = 1 THEN (IF hr THEN rn ELSE 0) ELSE first
@@ -590,12 +607,19 @@ ShapeOk      == HasDecl => \A v \in AllVals(cur, Prog(cur)) : ShapeOkV(v, cur, P
 RoundTrip    == HasDecl => \A v \in AllVals(cur, Prog(cur)) : RoundTripV(v, cur, Prog(cur), Dev)
 DocReadsBack == HasDecl => \A v \in AllVals(cur, Prog(cur)) : DocReadsBackV(v, cur, Prog(cur), Dev)
 \* the three together, evaluating to_json once per value (used by the large configurations)
+Compiles     == HasDecl => ProgCompiles(Prog(cur), Dev)
 Theorems     == HasDecl => LET P == Prog(cur) IN
-                           \A v \in AllVals(cur, P) :
+                           /\ ProgCompiles(P, Dev)
+                           /\ \A v \in AllVals(cur, P) :
                               LET j == ToJD(v, cur, P, Dev)  sh == ShapeD(v, cur, P) IN
                               /\ j = sh
                               /\ FromJD(j, cur, P) = ROk(v)
                               /\ FromJD(AsF64(sh, Dev), cur, P) = ROk(v)
+\* the same over the diagonal values only (configurations with many fields)
+TheoremsDiag == HasDecl => LET P == Prog(cur) IN
+                           /\ ProgCompiles(P, Dev)
+                           /\ \A v \in Range(DeclVals(cur, P)) :
+                                 /\ ShapeOkV(v, cur, P, Dev) /\ RoundTripV(v, cur, P, Dev) /\ DocReadsBackV(v, cur, P, Dev)
 LibSound     == \A i \in 1..Len(Lib) : /\ WellFormed(Lib[i])
                                        /\ \A v \in Range(DeclVals(Lib[i], Lib)) :
                                              ShapeOkV(v, Lib[i], Lib, Dev) /\ RoundTripV(v, Lib[i], Lib, Dev)
